@@ -24,14 +24,14 @@ pub struct Family {
 }
 
 pub fn families() -> Vec<Family> {
-    let base = Program { budget: 6, w_stream: 0, w_future: 0, w_call: 0, w_yield: 1, w_spawn: 0, w_keep: 0, w_cell: 0, w_nested: 0, w_move: 0, w_pause: 2, depth: 0, tracked: true, guest_pairs: true };
+    let base = Program { budget: 6, w_stream: 0, w_future: 0, w_call: 0, w_yield: 1, w_spawn: 0, w_keep: 0, w_cell: 0, w_nested: 0, w_move: 0, w_pause: 2, w_foreign: 0, depth: 0, tracked: true, guest_pairs: true };
     let mut v = vec![];
     v.push(Family { name: "streams", property: "C19", prog: Program { w_stream: 8, w_yield: 1, ..base.clone() }, max_tasks: 2, block_on: true, cancel: true, cells: false, faults: true });
     v.push(Family { name: "futures", property: "C20", prog: Program { w_future: 8, w_yield: 1, ..base.clone() }, max_tasks: 2, block_on: true, cancel: true, cells: false, faults: true });
     v.push(Family { name: "subtasks", property: "C21", prog: Program { w_call: 8, w_yield: 1, ..base.clone() }, max_tasks: 2, block_on: true, cancel: true, cells: false, faults: true });
     v.push(Family { name: "exec", property: "C22", prog: Program { w_stream: 2, w_future: 2, w_call: 2, w_yield: 4, w_spawn: 3, w_keep: 1, w_nested: 1, w_pause: 3, ..base.clone() }, max_tasks: 3, block_on: true, cancel: true, cells: false, faults: true });
     v.push(Family { name: "wake", property: "C23", prog: Program { w_stream: 1, w_call: 1, w_yield: 2, w_keep: 3, w_cell: 6, w_spawn: 1, ..base.clone() }, max_tasks: 3, block_on: false, cancel: true, cells: true, faults: true });
-    v.push(Family { name: "mixed", property: "C18", prog: Program { w_stream: 4, w_future: 3, w_call: 3, w_yield: 1, w_spawn: 1, w_keep: 1, w_cell: 2, w_nested: 2, w_move: 4, w_pause: 2, ..base.clone() }, max_tasks: 3, block_on: true, cancel: true, cells: true, faults: true });
+    v.push(Family { name: "mixed", property: "C18", prog: Program { w_stream: 4, w_future: 3, w_call: 3, w_yield: 1, w_spawn: 1, w_keep: 1, w_cell: 2, w_nested: 2, w_move: 4, w_pause: 2, w_foreign: 2, ..base.clone() }, max_tasks: 3, block_on: true, cancel: true, cells: true, faults: true });
     // fault-free slices: no relaxation can hide an ordinary bug
     for f in v.clone() {
         let name: &'static str = Box::leak(format!("{}-nofault", f.name).into_boxed_str());
@@ -56,6 +56,8 @@ pub struct RunResult {
 enum Driver {
     StartTask,
     BlockOn,
+    /// a foreign executor speaking version 1 or 2 of the task C ABI
+    Foreign(u32),
 }
 struct Plan {
     driver: Driver,
@@ -161,6 +163,7 @@ pub fn run_one(fam: &Family, verif_seed: u64, run_index: u64, choices: Choices, 
     ids_reset();
     call::reset_hooks();
     FOREIGN_OK.with(|f| f.borrow_mut().clear());
+    crate::foreign::reset();
     cmhost::report::set_current_run(fam.name, run_index);
     let mut h = Host::new(choices);
     h.trace_on = trace;
@@ -217,9 +220,23 @@ pub fn run_one(fam: &Family, verif_seed: u64, run_index: u64, choices: Choices, 
     };
     let mut plans: Vec<Plan> = vec![];
     for _ in 0..ntasks {
-        let driver = if fam.block_on && pick(4) == 3 { Driver::BlockOn } else { Driver::StartTask };
-        let tid = with(|h| h.new_task(if driver == Driver::StartTask { TKind::Callback } else { TKind::BlockOn }));
-        let prog = draw_program(&fam.prog);
+        let driver = if fam.block_on && pick(4) == 3 {
+            if fam.prog.w_foreign > 0 && pick(2) == 1 { Driver::Foreign(1 + pick(2) as u32) } else { Driver::BlockOn }
+        } else {
+            Driver::StartTask
+        };
+        let tid = with(|h| {
+            h.new_task(match driver {
+                Driver::StartTask => TKind::Callback,
+                Driver::BlockOn => TKind::BlockOn,
+                Driver::Foreign(_) => TKind::Foreign,
+            })
+        });
+        let mut prog = draw_program(&fam.prog);
+        if let Driver::Foreign(_) = driver {
+            prog.w_spawn = 0; // documented: spawn_local needs this crate's own executor
+            prog.w_cell = 0;
+        }
         let interp = Interp::new(tid, prog, true);
         wwith(|w| {
             w.tasks.entry(tid).or_default();
@@ -356,6 +373,15 @@ pub fn run_one(fam: &Family, verif_seed: u64, run_index: u64, choices: Choices, 
                         gtr!("== block_on of task {tid} returned");
                         task_exited(tid, false);
                     }
+                    Driver::Foreign(v) => {
+                        gtr!("== foreign v{v} executor: task {tid} (i{})", interp.iid);
+                        fault(if v == 1 { "foreign_v1_executor" } else { "foreign_v2_executor" });
+                        let root = RootWrap { inner: interp, tid };
+                        with(|h| h.tasks[tid].state = TState::Running);
+                        guest_call(tid, move || crate::foreign::run_foreign(v, tid, Box::pin(root)));
+                        with(|h| h.tasks[tid].state = TState::Exited);
+                        task_exited(tid, false);
+                    }
                 }
             }
             S::Event(i) => {
@@ -450,6 +476,7 @@ pub fn run_one(fam: &Family, verif_seed: u64, run_index: u64, choices: Choices, 
         }
     }
 
+    crate::foreign::end_of_run();
     end_oracles();
 
     let world = uninstall_world();
